@@ -43,6 +43,7 @@ def r03_1_2(ctx, run, rule1='R03.1', rule2='R03.2'):
     loc = f'{b.file}:{b.line}'
     flush_problems = []
     string_problems = []
+    esc_paths = {}
     for h in sorted(loops):
         for p in ex.explore(start=h, stop=set(loops)):
             if p.end[0] not in ('stop', 'backedge') or p.end[1] != h:
@@ -56,7 +57,8 @@ def r03_1_2(ctx, run, rule1='R03.1', rule2='R03.2'):
                 continue
             ps = pushed(p)
             # the pending-run flush: push_str(from_utf8_lossy(value[last_start..i]))
-            flushes = [x for x in ps if x[0] == 'str' and any(is_call(s, 'String::from_utf8_lossy') for s in subterms(x[1]))]
+            flushes = [x for x in ps if x[0] == 'str' and any((is_call(s, 'String::from_utf8_lossy', 'str::from_utf8', 'from_utf8_unchecked')) or
+                                                             (is_call(s, 'Index::index') and len(s[2]) == 2 and deref_all(s[2][1])[0] == 'agg') for s in subterms(x[1]))]
             escapes = [x for x in ps if x not in flushes]
             if not escapes:
                 plain = plain.union(rng)
@@ -83,12 +85,15 @@ def r03_1_2(ctx, run, rule1='R03.1', rule2='R03.2'):
                     if not (has_u and hexarg):
                         string_problems.append(f'bytes {rng} are written as {show(t)[:80]}, which is not `\\u` followed by the hex value of the byte')
             # R03.2b: pending ordinary bytes are flushed before the escape, the run restarts after the escaped byte
-            gt = [c for c in p.conds if c[0][0] == 'bin' and c[0][1] == 'Gt' and any(s[0] == 'hav' for s in subterms(c[0]))]
+            # a path either writes the pending run before the escape, or has compared the run start (a loop-carried local)
+            # with the current position and found the run empty
+            cmp_ = [c for c in p.conds if c[0][0] == 'bin' and c[0][1] in ('Gt', 'Lt', 'Ge', 'Le', 'Ne', 'Eq') and any(s[0] == 'hav' for s in subterms(c[0]))
+                    and not any(s[0] == 'index' for s in subterms(c[0]))]
             first_escape = ps.index(escapes[0])
-            if not gt:
-                flush_problems.append(f'the escape for bytes {rng} is emitted without testing for a pending run of ordinary bytes (they are dropped)')
-            elif any(c[2] is True for c in gt) and not any(ps.index(x) < first_escape for x in flushes):
-                flush_problems.append(f'for bytes {rng} the pending run value[last_start..i] is not written before the escape')
+            flushed = any(ps.index(x) < first_escape for x in flushes)
+            esc_paths.setdefault(str(rng), []).append(flushed)
+            if not flushed and not cmp_:
+                flush_problems.append(f'the escape for bytes {rng} is emitted without writing or testing for a pending run of ordinary bytes (they are dropped)')
             ls = None
             for k, v in p.store.items():
                 if k[0] == 'L' and b.name_of(k[1]) and v[0] == 'bin' and v[1] == 'Add':
@@ -97,6 +102,9 @@ def r03_1_2(ctx, run, rule1='R03.1', rule2='R03.2'):
                         ls = k[1]
             if ls is None:
                 flush_problems.append(f'after escaping bytes {rng} the start of the next run is not set to i + 1')
+    for k, fl in esc_paths.items():
+        if not any(fl):
+            flush_problems.append(f'for bytes {k} the pending run of ordinary bytes is never written before the escape')
     missing = MANDATORY.intersect(plain)
     if missing.empty() and not escaped.empty():
         run.proved(rule1, b.path, 'coverage', f'all 34 bytes RFC 8259 requires to be escaped (0x00-0x1F, 0x22, 0x5C) take an escape arm; escaped set = {escaped}', loc)
@@ -241,6 +249,9 @@ def r03_4(ctx, run, rule='R03.4'):
         ps, _ = explore(s2s)
         ok = False
         for p in ps:
-            if any(called(e[1], 'Number::decode') for e in p.calls()) and any(called(e[1], 'ToString::to_string') for e in p.calls()):
+            cs = list(p.calls())
+            dec = [i for i, e in enumerate(cs) if called(e[1], 'Number::decode')]
+            if dec and any(called(e[1], 'ToString::to_string', 'Write::write_fmt', 'fmt::format', 'Display::fmt') for e in cs[dec[0]:]):
                 ok = True
-        (run.proved if ok else run.violation)(rule, s2s.path, 'number-arm', 'numbers are decoded and printed with Display for Number' if ok else 'the number arm does not decode and Display the number', f'{s2s.file}:{s2s.line}')
+        (run.proved if ok else run.undecided)(rule, s2s.path, 'number-arm', 'numbers are decoded and printed with Display for Number' if ok else
+                                               'no path was recognised that decodes the number and prints it through Display (to_string / write! / format!): how numbers reach the text is not decided', f'{s2s.file}:{s2s.line}')
